@@ -20,7 +20,8 @@ CLAIMS = {
              "of the working arrays, scalar => variance 0, range sampling slots, and equality of the population formulas "
              "with (I-W^T)^-1 mu and A diag(v) A^T over the reals (differing normal forms are refuted by exact rational evaluation), that "
              "the whole weight matrix enters the computation, that no decision depends on weight values, nothing but own "
-             "allocations is written, and the result reads no attribute of the model other than W / means / variances / p (no caches).",
+             "allocations is written, and the result reads no attribute of the model other than W / means / variances / p (no caches)."
+             " Also: W / means / variances stored by the constructor are the object's own copies (CTOR.own).",
         note="Not decided: floating-point error of the inverse; numpy's uniform respecting its bounds (trusted API model). "
              "Trusted: Python semantics of the subset used, sverif/api.py.",
         technique="static analysis: predicate-abstraction case tables + symbolic value numbering with matrix normal form + dtype/slot dataflow over the AST"),
@@ -28,7 +29,8 @@ CLAIMS = {
         text=_T + "Decides the 8-row outcome table of ANM.sample (do / shift / noise / none and overlaps), that parent "
              "columns are selected by the boolean mask of column i of the stored matrix, that the loop runs over the "
              "ordering computed once in the constructor from the same matrix, None -> null -> 0, the n x p result, no hidden model state, "
-             "one reseed per call before the loop, and that constructor and sampler write nothing they do not own.",
+             "one reseed per call before the loop, and that constructor and sampler write nothing they do not own."
+             " Also: index tables the constructor prepares per node (self._parents[i]) are read as the expression they hold: parents must come in increasing index (sorted / flatnonzero / integer array), not in set-iteration order.",
         note="Not decided: that topological_ordering returns a topological order (C03's undecided core); numpy broadcasting.",
         technique="static analysis: case tables by predicate abstraction over symbolic terms, dependence (REL) rules"),
     "C03": dict(
@@ -68,7 +70,8 @@ CLAIMS = {
              "both filters and derives from a copy of the input with only undirected-edge entries cleared, that the loop "
              "runs over {True,False}^u with complementary masks and swapped columns for the two orientations, the dispatch "
              "between shortcut and general path (the chain test must be the exact value test), and the chain shortcut's "
-             "interval partition.",
+             "interval partition."
+             " Also: the reference chain is_chain_graph compares with is built afresh on every call (CHAIN.test.reference).",
         note="Not decided: completeness/uniqueness of the 2^u enumeration; equality of the chain shortcut and the general path.",
         technique="static analysis: zero-pattern taint, must-depend (REL) and dominance rules over symbolic terms"),
     "C08": dict(
@@ -99,25 +102,29 @@ CLAIMS = {
              "guards, orientation agreement of the edges cleared at targets and in maximally_orient, that the chain filter "
              "compares parent columns, that results depend on I, that I = {} degenerates to the CPDAG path, that rule_1 / "
              "rule_2 equal their set-theoretic definitions in every world of the two sets involved (exhaustive Venn-region tables), and "
-             "rule_3 / rule_4 role by role (witness sets as set expressions, distinctness, the non-adjacency test).",
+             "rule_3 / rule_4 role by role (witness sets as set expressions, distinctness, the non-adjacency test)."
+             " Also: the pass flag of maximally_orient is raised on the path of every orienting store and never recomputed per edge; rule_3 / rule_4 return no computed answer from inside their search loops; the reference chain of is_chain_graph is built afresh.",
         note="Not decided: exactness of the class and of the essential graph; the soundness/completeness of the rule set itself (C09).",
         technique="static analysis: zero-pattern taint, guard dominance, index-orientation agreement over symbolic terms"),
     "C11": dict(
         text=_T + "Decides strict upper triangle, the same random permutation on both axes, ordering = argsort(permutation), "
              "weights uniform(w_min, w_max) masked by 0/1, edge probability k/(p-1) with a Bernoulli threshold idiom, "
-             "generator seeded from random_state; on every return path (fast paths included) the ordering comes from a draw.",
+             "generator seeded from random_state; on every return path (fast paths included) the ordering comes from a draw."
+             " Also: a relabelling drawn by choice without replace=False is decided (not a permutation); the generators write only arrays they allocated (FRESH.*: no memoised mask written in place).",
         note="Not decided: distributional facts beyond the idiom (numpy's generator is trusted).",
         technique="static analysis: index-space typing and slot dataflow over symbolic terms, scalar normal form"),
     "C12": dict(
         text=_T + "Decides K iterations x one append, replace=False inside each intervention, inclusive upper size bound, "
              "shrinking pool when replace=False, that the three guards' predicates equal the stated ones (boundary exact), and that building "
-             "an error message cannot itself raise (% formatting of a possibly-tuple argument).",
+             "an error message cannot itself raise (% formatting of a possibly-tuple argument)."
+             " Also: no branch or default takes the truth value of K / size / p (0 is a legal value: FALSY.zero).",
         note="Not decided: 'over seeds every size and variable occurs' (statistical).",
         technique="static analysis: predicate normal forms, slot dataflow, loop-carried dependence"),
     "C13": dict(
         text=_T + "Decides for every API with a random_state that each reachable draw comes from default_rng(random_state) "
              "built once, or from the global stream after an `is not None`-guarded reseed with that very parameter; no "
-             "fallback seed; unseeded sampling never seeds; no seeded API writes into its arguments, the model or module state.",
+             "fallback seed; unseeded sampling never seeds; no seeded API writes into its arguments, the model or module state."
+             " Also: a generator chosen by a test the seeded mode does not decide (isinstance(seed, int) - false for numpy integers) is 'either of two'; a seeded / unseeded mixture is reported.",
         note="Trusted: numpy generators are deterministic functions of their seed; user callables may read the global stream.",
         technique="static analysis: interprocedural randomness-provenance/effect analysis (abstract interpretation with must-seeded state) + ownership analysis"),
     "C14": dict(
@@ -160,7 +167,8 @@ CLAIMS = {
     "C20": dict(
         text=_T + "Decides that each factory's closure passes its parameters to the matching numpy slot with size <- n, "
              "normal converts variance to standard deviation, draws use the global legacy stream and stay on it under ANM's deepcopy "
-             "(no partial over a bound method of the global RandomState), every n >= 0 of any integer type is served, zero/null are constant 0.",
+             "(no partial over a bound method of the global RandomState), every n >= 0 of any integer type is served, zero/null are constant 0."
+             " Also: a factory written as a + b * Z of one standard draw of its family is decided on the law's parameters as polynomials (LAW.*: mean / standard deviation, support, scale); a reduction of the draw without a size test is decided (n = 0 raises).",
         note="Not decided: the distributional laws themselves (numpy).",
         technique="static analysis: closure evaluation to symbolic terms, slot/unit rules"),
 }
